@@ -1,12 +1,15 @@
 (* Tree/RefsProofsOps.v — C05, assembly.
    [P] C05_inv_partial      every operation outside Known04/Known05 (findings) and Pending05 keeps Inv05 (given Inv04)
    [P] C05_history_partial  ... along every history (Inv04 /\ Inv05 together)
-   Pending05 (constructor list): OpCopy OpCopyAt OpMove OpMoveAt OpSetItemName OpRemoveFile OpRemoveFromFile. *)
+   [P] C45_inv_partial      Inv04 /\ Inv05 together, incl. set_item_name
+   Pending05 (constructor list): OpCopy OpCopyAt OpMove OpMoveAt OpSetItemName OpRemoveFile OpRemoveFromFile;
+   Pending45 (for the combination): OpCopy OpCopyAt OpMove OpMoveAt OpRemoveFile OpRemoveFromFile. *)
 From Coq Require Import PeanoNat Arith.
 From AV Require Import Base.Bytes Base.Outcome Hash.HashModel Tree.Heap Tree.Ops Tree.Script Tree.IndexProofsW
   Tree.Index Tree.IndexProofsBase Tree.IndexProofsAssoc Tree.IndexProofsFrame Tree.IndexProofsAttach
   Tree.IndexProofsCreate Tree.IndexProofsNamed Tree.IndexProofsEdit Tree.IndexProofsModel Tree.IndexProofsRemoveOp Tree.IndexProofs
-  Tree.Refs Tree.RefsProofsBase Tree.RefsProofs Tree.RefsProofsReport Tree.RefsProofsCreate Tree.RefsProofsEdit.
+  Tree.Refs Tree.RefsProofsBase Tree.RefsProofs Tree.RefsProofsReport Tree.RefsProofsCreate Tree.RefsProofsEdit
+  Tree.RefsProofsSetName.
 Open Scope string_scope.
 Open Scope list_scope.
 Open Scope N_scope.
@@ -92,13 +95,28 @@ Proof.
   - apply wunit_inv in H as (r0 & H). eapply Inv05_sv; [eapply e_add_to_file_sv; eauto|exact HI5].
 Qed.
 
-(* ---------- all histories: C04 and C05 together (C05 needs IndexExact only through Inv04's side invariants) *)
+(* ---------- C04 and C05 together: one step (set_item_name needs both invariants) *)
+Theorem C45_inv_partial w o r w' :
+  TreeFacts w -> Inv04 w -> Inv05 T w ->
+  Known04 T LATEST w o = false -> Known05 w o = false -> Pending45 w o = false ->
+  run o w = Val (r, w') -> Inv04 w' /\ Inv05 T w'.
+Proof.
+  intros HF HI4 HI5 HK4 HK5 HP H.
+  destruct (Pending04 w o) eqn:E4.
+  - (* the only constructor pending for C04 alone but not for the combination *)
+    destruct o; try discriminate E4; try discriminate HP.
+    cbn [run_op] in H. apply wunit_inv in H as (r0 & H).
+    destruct (C45_set_item_name T check_fn LATEST TK _ _ _ _ _ HF HI4 HI5 H) as (_ & H1 & H2). auto.
+  - assert (E5 : Pending05 w o = false) by (destruct o; try reflexivity; discriminate).
+    split; [eapply C04_inv_partial; eauto|eapply C05_inv_partial; eauto].
+Qed.
+
+(* ---------- all histories *)
 Fixpoint steps_ok5 (l : list op) (w : world) : Prop :=
   match l with
   | [] => True
   | o :: rest =>
-    TreeFacts w /\ Known04 T LATEST w o = false /\ Known05 w o = false /\
-    Pending04 w o = false /\ Pending05 w o = false /\
+    TreeFacts w /\ Known04 T LATEST w o = false /\ Known05 w o = false /\ Pending45 w o = false /\
     match run o w with Val (_, w') => steps_ok5 rest w' | _ => True end
   end.
 
@@ -108,10 +126,9 @@ Theorem C05_history_partial l : forall w w',
 Proof.
   induction l as [|o rest IH]; intros w w' HI4 HI5 Hok H; cbn in *.
   - injection H as <-. auto.
-  - destruct Hok as (HF & HK4 & HK5 & HP4 & HP5 & Hrest). destruct (run o w) as [[r w1]| |] eqn:E; try discriminate.
-    eapply IH; [| |exact Hrest|exact H].
-    + eapply C04_inv_partial; eauto.
-    + eapply C05_inv_partial; eauto.
+  - destruct Hok as (HF & HK4 & HK5 & HP & Hrest). destruct (run o w) as [[r w1]| |] eqn:E; try discriminate.
+    destruct (C45_inv_partial w o r w1 HF HI4 HI5 HK4 HK5 HP E) as (H1 & H2).
+    eapply IH; eauto.
 Qed.
 
 Lemma Inv05_empty : Inv05 T (mkWorld (fun _ => None) 0 [] []).
